@@ -5,7 +5,7 @@ cd /verif
 export VERIF_EVIDENCE_DIR=/var/tmp/tzrs-verif-evidence-scratch
 ids=("$@"); [ ${#ids[@]} -eq 0 ] && ids=($(ls refactors | grep -E '^R'))
 if [ -n "$(git -C /repo status --porcelain -- src)" ]; then echo "/repo/src is not clean"; exit 2; fi
-PROPS="C01 C02 C03 C04 C07 C11 C12 C13 C14 C16 C17"
+PROPS="${REFACTOR_PROPS:-C01 C02 C03 C04 C05 C06 C07 C11 C12 C13 C14 C16 C17}"
 for id in "${ids[@]}"; do
   git -C /repo apply /verif/refactors/$id/patch.diff || { echo "$id: patch does not apply"; continue; }
   (cd /repo && cargo test --workspace --offline 2>&1 | grep -E "^test result" | head -1 | sed "s/^/$id tests: /")
